@@ -308,13 +308,21 @@ func VerifC09_CrashRecovery() {
 	namespaced := rt.Bool("namespaced")
 	method := verifRollMethod()
 	names := []string{"a", "b"}
-	const K = 5
+	K := 5
+	crashSync := 0 // which sync after the spec change is interrupted
+	if rt.Tier() == 1 {
+		names = []string{"a", "b", "c"}
+		K = 7
+		crashSync = rt.Choice("crash-in-sync", 3)
+	}
 
 	// reference: uninterrupted run
 	u := verifNewRollWorld(namespaced, method, names, "1")
 	rt.Assert(u.sync() == nil, "reference/first-sync-error")
 	u.markHealthy()
 	u.setSpec("2")
+	u.runRollout(crashSync)
+	u.markHealthy()
 	u.w.Srv.ResetLog()
 	_ = u.sync()
 	n := len(u.w.Srv.Log)
@@ -325,6 +333,8 @@ func VerifC09_CrashRecovery() {
 	rt.Assert(r.sync() == nil, "first-sync-error")
 	r.markHealthy()
 	r.setSpec("2")
+	r.runRollout(crashSync)
+	r.markHealthy()
 	r.w.Srv.ArmFault(rt.Choice("crash-after-request", n), env.FaultCrash, "", true)
 	crashed := false
 	func() {
